@@ -47,7 +47,7 @@ Module ProdP.
   Definition bDn (p : bpc) : nat := match p with BDone => 1 | _ => 0 end.
   Definition bSel (p : bpc) : nat := match p with BSelect => 1 | _ => 0 end.
   Lemma b_spec p a : bHd p a <= 1 /\ bRs p + bNo p + bLate p + bSel p <= 1 /\ bDn p <= bLate p /\ aW a <= 1 /\
-                     (bSel p = 1 -> bHd p a = 0) /\ (bNo p = 1 -> bHd p a = 0) /\ (bLate p = 1 -> bHd p a = 0).
+                     bSel p + bHd p a <= 1 /\ bNo p + bHd p a <= 1 /\ bLate p + bHd p a <= 1.
   Proof. destruct p, a; cbn; lia. Qed.
   Definition brB (p : brpc) : nat := match p with BrNet | BrSend => 1 | _ => 0 end.
   Definition brDn (p : brpc) : nat := match p with BrDone => 1 | _ => 0 end.
@@ -142,13 +142,20 @@ Module ProdP.
     | |- context [b2n (?a =? ?b)] => destruct (a =? b) eqn:?; bool_hyps; cbn in *
     end.
 
+  (* reduce projections of updated states by call-by-value over the setters only (cbn is far too slow on
+     this record), then evaluate the indicators that now see constructors *)
+  Ltac red_goal :=
+    cbv beta iota delta [upd_panic set_s set_infl set_app set_d set_t set_p set_mark set_b set_br set_misc done1 fresh_b tokens];
+    cbn [sM sLate sI sR sE sS s0 dH dDn tH tDn tNo pH pSt pNo pAct pLive aW bHd bRs bNo bLate bDn bSel brB brDn b2n orb andb].
+
   Ltac go_fin :=
     match goal with I : Inv ?s |- _ =>
       pose_specs s; destr_inv I;
       match goal with Hpn : b2n (panic _) = 0 |- _ =>
         let Hp := fresh "Hp" in pose proof (b2n_0 _ Hpn) as Hp; try rewrite Hp in * end;
-      unf; rew_eqs s; cbn in *;
-      (constructor; unf; cbn; rew_goal s; cbn; try lia; bool_goal; try lia)
+      unfold tokens in *; rew_eqs s;
+      cbn [sM sLate sI sR sE sS s0 dH dDn tH tDn tNo pH pSt pNo pAct pLive aW bHd bRs bNo bLate bDn bSel brB brDn b2n orb andb] in *;
+      (constructor; red_goal; rew_goal s; red_goal; try lia; bool_goal; bool_hyps; try lia)
     end.
   Ltac go s H I :=
     scbn H; unfold resolve in H;
